@@ -299,3 +299,7 @@ func faultSite(full string, at int) string {
 	}
 	return fmt.Sprintf("near %q", full[lo:hi])
 }
+
+func collectMsgsAst(t template.Template, f func(id uint64)) {
+	collectMsgs(t.Node, func(m *ast.MsgNode) { f(m.ID) })
+}
